@@ -26,6 +26,9 @@ type c07Case struct {
 	Suite  uint16 `json:"suite"`
 	Beh    string `json:"beh"`
 	Param  int    `json:"param"`
+	// NoClientCAs: the server has no client roots configured (ClientCAs nil) but does have RootCAs
+	// (which are for verifying servers, not clients) naming the client's issuer
+	NoClientCAs bool `json:"no_client_cas,omitempty"`
 }
 
 var c07Behaviours = []string{"no-cert-msg", "empty", "trusted", "untrusted", "expired", "wrong-eku", "enc-untrusted", "enc-expired", "enc-wrong-eku", "sig-wrong-eku", "cv-omitted", "cv-otherkey", "cv-othertranscript", "cv-corrupt", "cv-second-cert-key", "cv-encleaf-second-cert-key"}
@@ -95,6 +98,9 @@ func c07Run(c c07Case) (sig, msg string) {
 	ecdhe := vfIsECDHE(c.Suite)
 	ucfg := &Config{Time: vfTime, Certificates: []Certificate{p.SrvSig, p.SrvEnc}, CipherSuites: []uint16{c.Suite},
 		ClientAuth: ClientAuthType(c.Policy), ClientCAs: p.A.pool}
+	if c.NoClientCAs {
+		ucfg.ClientCAs, ucfg.RootCAs = nil, p.A.pool
+	}
 	sigC, encC := p.CliSig, p.CliEnc
 	switch c.Beh {
 	case "untrusted":
@@ -197,7 +203,11 @@ func c07Run(c c07Case) (sig, msg string) {
 	if r.UHung {
 		return "hang", fmt.Sprintf("server neither completed nor failed (peer: %v)", r.PErr)
 	}
-	want, wantVerified := c07Allows(ClientAuthType(c.Policy), ecdhe, c.Beh)
+	judged := c.Beh
+	if c.NoClientCAs && (judged == "trusted" || judged == "expired" || judged == "wrong-eku" || judged == "sig-wrong-eku") {
+		judged = "untrusted" // nothing chains to an empty set of client roots
+	}
+	want, wantVerified := c07Allows(ClientAuthType(c.Policy), ecdhe, judged)
 	got := r.UErr == nil
 	if got != want {
 		return fmt.Sprintf("policy-table:%s", c.Beh), fmt.Sprintf("policy %d suite %x behaviour %q: server completed=%v (err=%v, peer=%v), the policy allows=%v", c.Policy, c.Suite, c.Beh, got, r.UErr, r.PErr, want)
@@ -403,8 +413,73 @@ func c07FailedThenResume(suite uint16, policy int) (sig, msg string) {
 	return "", ""
 }
 
+// c07Eviction: a server session cache of small capacity, client X (with certificates) followed by
+// client Y (another identity: none, or other certificates) whose session evicts X's; when Y then
+// resumes, the server must report Y's identity, not X's.
+type c07Evict struct {
+	Suite  uint16 `json:"suite"`
+	Policy int    `json:"policy"`
+	Cap    int    `json:"cap"`
+	YCerts int    `json:"ycerts"` // 0 none, 2 certificates issued by root B
+}
+
+func c07EvictionRun(h c07Evict) (sig, msg string, resumed bool) {
+	p := vfGetPKI()
+	scfg := &Config{Time: vfTime, Certificates: []Certificate{p.SrvSig, p.SrvEnc}, CipherSuites: []uint16{h.Suite},
+		ClientAuth: ClientAuthType(h.Policy), ClientCAs: p.A.pool, SessionCache: NewLRUSessionCache(h.Cap)}
+	mkc := func(certs int) *Config {
+		c := &Config{Time: vfTime, RootCAs: p.A.pool, ServerName: vfServerName, CipherSuites: []uint16{h.Suite}, SessionCache: NewLRUSessionCache(8)}
+		switch certs {
+		case 1:
+			s, e := p.CliSig, p.CliEnc
+			c.GetClientCertificate = func(*CertificateRequestInfo) (*Certificate, error) { return &s, nil }
+			c.GetClientKECertificate = func(*CertificateRequestInfo) (*Certificate, error) { return &e, nil }
+		case 2:
+			s, e := p.CliSigB, p.CliEncB
+			c.GetClientCertificate = func(*CertificateRequestInfo) (*Certificate, error) { return &s, nil }
+			c.GetClientKECertificate = func(*CertificateRequestInfo) (*Certificate, error) { return &e, nil }
+		}
+		return c
+	}
+	x, y := mkc(1), mkc(h.YCerts)
+	var yDER [][]byte
+	for i := 0; i < h.Cap; i++ { // fill the cache with X's sessions (one per connection, fresh client caches)
+		xi := x.Clone()
+		xi.SessionCache = NewLRUSessionCache(8)
+		if r := vfRunPair(xi, scfg, vfPairOpt{}); r.CErr != nil || r.SErr != nil {
+			return "honest-failed", fmt.Sprintf("client X connection %d: %v / %v", i, r.CErr, r.SErr), false
+		}
+	}
+	r2 := vfRunPair(y, scfg, vfPairOpt{})
+	if r2.CErr != nil || r2.SErr != nil {
+		return "honest-failed", fmt.Sprintf("client Y first connection: %v / %v", r2.CErr, r2.SErr), false
+	}
+	for _, c := range r2.SS.PeerCertificates {
+		yDER = append(yDER, c.Raw)
+	}
+	r3 := vfRunPair(y, scfg, vfPairOpt{})
+	if r3.CPanic != "" || r3.SPanic != "" {
+		return "panic", r3.CPanic + r3.SPanic, false
+	}
+	if r3.CErr != nil || r3.SErr != nil {
+		return "honest-failed", fmt.Sprintf("client Y second connection: %v / %v", r3.CErr, r3.SErr), false
+	}
+	var got [][]byte
+	for _, c := range r3.SS.PeerCertificates {
+		got = append(got, c.Raw)
+	}
+	same := len(got) == len(yDER)
+	for i := 0; same && i < len(got); i++ {
+		same = bytes.Equal(got[i], yDER[i])
+	}
+	if !same {
+		return "resumed-identity", fmt.Sprintf("client Y presented %d certificates in its full handshake; on its next connection (resumed=%v, server cache capacity %d, earlier sessions of client X evicted) the server reports %d peer certificates that are not Y's", len(yDER), r3.SS.DidResume, h.Cap, len(got)), r3.SS.DidResume
+	}
+	return "", "", r3.SS.DidResume
+}
+
 func TestVF_C07(t *testing.T) {
-	rec := vfRec("C07", "C07-clientauth", "six policies x client behaviours (Certificate omitted, empty, trusted, untrusted CA, expired, wrong EKU, CertificateVerify omitted / by another key / over another transcript / corrupted) x suites played by a scripted client-role peer, plus two-connection histories (policy P1 then P2 on a shared session cache x client certificate kind); oracle: table from the documented ClientAuthType semantics; non-trivial = everything except (NoClientCert, no certificate); distinct = the case")
+	rec := vfRec("C07", "C07-clientauth", "six policies x client behaviours (Certificate omitted, empty, trusted, untrusted CA, expired, wrong EKU, CertificateVerify omitted / by another key / over another transcript / corrupted) x suites played by a scripted client-role peer, plus two-connection histories (policy P1 then P2 on a shared session cache x client certificate kind x second configuration's roots / clock), a server without client roots, and eviction histories (a small server cache, client X's sessions evicted by client Y's, Y resumes: the server must report Y's identity); oracle: table from the documented ClientAuthType semantics; non-trivial = everything except (NoClientCert, no certificate); distinct = the case")
 	suites := []uint16{ECC_SM4_GCM_SM3, ECDHE_SM4_GCM_SM3}
 	if vfThorough() {
 		suites = vfSuites
@@ -423,6 +498,14 @@ func TestVF_C07(t *testing.T) {
 					rec.Violation(sig, c, "%s", msg)
 				}
 				rec.Eval(!(pol == 0 && beh == "no-cert-msg"), c, "beh:"+beh, fmt.Sprintf("policy:%d", pol))
+				if beh == "trusted" || beh == "empty" || beh == "wrong-eku" {
+					c.NoClientCAs = true
+					sig, msg := c07Run(c)
+					if sig != "" {
+						rec.Violation(sig, c, "%s", msg)
+					}
+					rec.Eval(true, c, "beh:"+beh, "no-client-roots")
+				}
 			}
 		}
 	}
@@ -471,6 +554,31 @@ func TestVF_C07(t *testing.T) {
 				rec.Violation(sig, c, "%s", msg)
 			}
 			rec.Eval(true, c, "history:failed-then-resume")
+		}
+	}
+	for _, suite := range []uint16{ECC_SM4_GCM_SM3, ECC_SM4_CBC_SM3} {
+		for _, pol := range []int{1, 2, 3} {
+			for _, capacity := range []int{1, 2, 3} {
+				for _, yc := range []int{0, 2} {
+					if (pol == 2 && yc == 0) || (pol == 3 && yc == 2) {
+						continue // policy 2 requires a certificate, policy 3 verifies it
+					}
+					idx++
+					if !vfMine(idx) {
+						continue
+					}
+					h := c07Evict{Suite: suite, Policy: pol, Cap: capacity, YCerts: yc}
+					sig, msg, resumed := c07EvictionRun(h)
+					if sig != "" {
+						rec.Violation(sig, h, "%s", msg)
+					}
+					cl := "eviction:full"
+					if resumed {
+						cl = "eviction:resumed"
+					}
+					rec.Eval(true, h, cl)
+				}
+			}
 		}
 	}
 	rec.SetExhaustive(true, fmt.Sprintf("catalogue: 6 policies x %d suites x %d behaviours and %d histories enumerated completely; parametrised behaviours additionally sampled", len(suites), len(c07Behaviours), nh))
